@@ -409,12 +409,12 @@ Definition public_pair_point (s : text) : outcome (option (Z * Z)) :=
   | OutOfFuel => OutOfFuel
   end.
 
-(* `if point: return self._network.keys.public(point)` is outside any try: Key.__init__'s range test escapes *)
+(* `if point: try: return self._network.keys.public(point) except ValueError: return None` *)
 Definition public_pair (net : netcfg) (s : text) : result :=
   bind (keys_private 1 true) (fun _ =>
   bind (public_pair_point s) (fun r =>
   match r with
-  | Some pt => bind (keys_public_pair pt) (fun o => Ret (Some o))
+  | Some pt => catch_value (keys_public_pair pt)
   | None => Ret None
   end)).
 
